@@ -3,10 +3,13 @@ package main
 // Rules added after the third round of independent seeds.
 
 import (
+	"fmt"
 	"go/ast"
 	"go/token"
 	"go/types"
 	"strings"
+
+	"golang.org/x/tools/go/cfg"
 )
 
 // R03k: SQLite has no backslash escapes.
@@ -524,4 +527,484 @@ func checkSkipAccumulates(c *Ctx, rule string) {
 		return true
 	})
 	c.Check(rule, "DiffSkipChanges|appends to SkipChanges", fi.Decl.Pos(), ok && n > 0, "DiffSkipChanges replaces DiffOptions.SkipChanges instead of appending to it: of several skip options only the last one is in force")
+}
+
+// R15l: an attribute read back by presence is written by presence.
+const ruleTextCommentPresence = "comments round-trip by presence: specutil.convertCommentFromSpec adds a schema.Comment whenever the `comment` attribute is present, so convertCommentFromSchema writes the attribute whenever a schema.Comment is present: its guard is the sqlx.Has test alone, with no further condition on the text (an explicit empty comment would be dropped and come back as a missing attribute)"
+
+func checkCommentPresence(c *Ctx, rule string) {
+	fi := c.Func(rule, pSpecutil, "", "convertCommentFromSchema")
+	if fi == nil {
+		return
+	}
+	info := fi.Info()
+	n, ok := 0, true
+	var pos token.Pos = fi.Decl.Pos()
+	ast.Inspect(fi.Decl.Body, func(m ast.Node) bool {
+		ifs, isIf := m.(*ast.IfStmt)
+		if !isIf || nodeHasCall(info, ifs.Body, func(fn *types.Func, _ *ast.CallExpr) bool { return fn.Name() == "StringAttr" }) == nil {
+			return true
+		}
+		n++
+		call, isCall := ast.Unparen(ifs.Cond).(*ast.CallExpr)
+		if !isCall || !funcIs(calleeOf(info, call), pSqlx, "", "Has") {
+			ok, pos = false, ifs.Cond.Pos()
+		}
+		return true
+	})
+	c.Check(rule, "convertCommentFromSchema|written whenever present", pos, ok && n > 0, "convertCommentFromSchema writes the comment attribute under a condition narrower than `a Comment attribute is present`: an element with an explicit empty comment loses the attribute in HCL and the round-tripped schema differs (ModifyAttr / ChangeComment in both directions)")
+}
+
+// R14h: a result cursor is closed on every path.
+const ruleTextRowsClosed = "result cursors are closed on every path: in the SQLite driver (one connection; an open cursor keeps the database locked) every function that owns a *sql.Rows — received as a parameter or obtained from Query/QueryContext and not handed on — defers rows.Close() before it can return, so a failing inspection does not leave a cursor open that makes the deferred restore of the dev database fail with `database is locked`"
+
+func checkRowsClosed(c *Ctx, rule string) {
+	n := 0
+	isRows := func(t types.Type) bool { return t != nil && typeIs(derefType(t), "database/sql", "Rows") }
+	// closes reports whether every path of fi from the start points to a
+	// return passes a Close of obj (direct, deferred, or through a callee that
+	// closes the parameter it receives it as). It returns the leaking return.
+	var closes func(fi *FuncInfo, obj types.Object, errObj types.Object, starts func(*Flow) []point, depth int) (ast.Node, bool)
+	closes = func(fi *FuncInfo, obj, errObj types.Object, starts func(*Flow) []point, depth int) (ast.Node, bool) {
+		info := fi.Info()
+		fl := newFlow(info, fi.Decl.Body)
+		isObj := func(e ast.Expr) bool {
+			id, ok := ast.Unparen(e).(*ast.Ident)
+			return ok && info.ObjectOf(id) == obj
+		}
+		closing := func(nd ast.Node) bool {
+			found := false
+			ast.Inspect(nd, func(m ast.Node) bool {
+				if _, ok := m.(*ast.FuncLit); ok {
+					if _, isDefer := nd.(*ast.DeferStmt); !isDefer {
+						return false
+					}
+				}
+				call, ok := m.(*ast.CallExpr)
+				if !ok || found {
+					return !found
+				}
+				if se, ok := call.Fun.(*ast.SelectorExpr); ok && se.Sel.Name == "Close" && isObj(se.X) {
+					found = true
+					return false
+				}
+				for ai, a := range call.Args {
+					if !isObj(a) || depth <= 0 {
+						continue
+					}
+					fn := calleeOf(info, call)
+					if fn == nil {
+						continue
+					}
+					gi := c.FuncInfoOf(fn)
+					if gi == nil || gi.Decl.Body == nil {
+						continue
+					}
+					sig := fn.Type().(*types.Signature)
+					if ai >= sig.Params().Len() {
+						continue
+					}
+					pobj := types.Object(sig.Params().At(ai))
+					// the declared parameter object of the callee's syntax
+					var declObj types.Object
+					idx := 0
+					for _, fld := range gi.Decl.Type.Params.List {
+						for _, nm := range fld.Names {
+							if idx == ai {
+								declObj = gi.Info().ObjectOf(nm)
+							}
+							idx++
+						}
+					}
+					if declObj == nil {
+						declObj = pobj
+					}
+					if _, ok := closes(gi, declObj, nil, func(f *Flow) []point { return []point{f.entry()} }, depth-1); ok {
+						found = true
+						return false
+					}
+				}
+				return true
+			})
+			return found
+		}
+		edgeStop := func(b *cfg.Block, si int) bool {
+			return edgeImplies(b, si, func(e ast.Expr, val bool) bool {
+				be, ok := ast.Unparen(e).(*ast.BinaryExpr)
+				if !ok || (be.Op != token.NEQ && be.Op != token.EQL) {
+					return false
+				}
+				var x ast.Expr
+				switch {
+				case isNilIdent(info, be.Y):
+					x = be.X
+				case isNilIdent(info, be.X):
+					x = be.Y
+				default:
+					return false
+				}
+				id, ok := ast.Unparen(x).(*ast.Ident)
+				if !ok {
+					return false
+				}
+				isNil := (be.Op == token.EQL) == val
+				o := info.ObjectOf(id)
+				// no cursor on this edge: the acquiring call failed, or the cursor is nil
+				return (o == obj && isNil) || (errObj != nil && o == errObj && !isNil)
+			})
+		}
+		leak, found := fl.reachEx(starts(fl), closing, isReturn, edgeStop)
+		return leak, !found
+	}
+	c.AllFuncs(false, func(fi *FuncInfo) {
+		if fi.Pkg.PkgPath != pSqlite && fi.Pkg.PkgPath != pSqlitecheck {
+			return
+		}
+		info := fi.Info()
+		type acq struct {
+			obj, errObj types.Object
+			node        ast.Node
+		}
+		var acqs []acq
+		record := func(lhs []*ast.Ident, rhs ast.Expr, node ast.Node) {
+			call, ok := ast.Unparen(rhs).(*ast.CallExpr)
+			if !ok || len(lhs) == 0 || !isRows(info.TypeOf(lhs[0])) {
+				return
+			}
+			if tup, ok := info.TypeOf(call).(*types.Tuple); !ok || tup.Len() != 2 || !isRows(tup.At(0).Type()) {
+				return
+			}
+			a := acq{obj: info.ObjectOf(lhs[0]), node: node}
+			if len(lhs) > 1 {
+				a.errObj = info.ObjectOf(lhs[1])
+			}
+			acqs = append(acqs, a)
+		}
+		ast.Inspect(fi.Decl.Body, func(m ast.Node) bool {
+			switch x := m.(type) {
+			case *ast.FuncLit:
+				return false
+			case *ast.AssignStmt:
+				if len(x.Rhs) == 1 {
+					var ids []*ast.Ident
+					for _, l := range x.Lhs {
+						id, _ := l.(*ast.Ident)
+						if id == nil {
+							return true
+						}
+						ids = append(ids, id)
+					}
+					record(ids, x.Rhs[0], x)
+				}
+			case *ast.ValueSpec:
+				if len(x.Values) == 1 {
+					record(x.Names, x.Values[0], x)
+				}
+			}
+			return true
+		})
+		for _, a := range acqs {
+			a := a
+			n++
+			c.funcs[fi.Name] = true
+			leak, ok := closes(fi, a.obj, a.errObj, func(f *Flow) []point {
+				var out []point
+				for _, pt := range f.find(func(nd ast.Node) bool {
+					hit := false
+					ast.Inspect(nd, func(m ast.Node) bool {
+						if m == a.node {
+							hit = true
+						}
+						return !hit
+					})
+					return hit
+				}) {
+					out = append(out, after(pt))
+				}
+				return out
+			}, 3)
+			pos := a.node.Pos()
+			where := ""
+			if leak != nil {
+				where = fmt.Sprintf(" (the return at line %d, possibly in a callee it is handed to, is reached with the cursor open)", posLine(c.Fset, leak.Pos()))
+			}
+			c.Check(rule, fi.Name+"|"+a.obj.Name()+" closed on every path", pos, ok, "%s obtains the cursor %s but a path to a return neither closes it, defers its Close, nor hands it to a function that does%s: the single SQLite connection stays locked by the open cursor and the restore of the dev database fails, handing the database back dirty", fi.Name, a.obj.Name(), where)
+		}
+	})
+	if n < 4 {
+		c.Unresolved(rule, "cursor acquisitions in sql/sqlite (found fewer than 4)")
+	}
+}
+
+// R14i: the restore does not run under a deadline set up in the same function.
+func checkRestoreCtx(c *Ctx, fi *FuncInfo, deferred *ast.DeferStmt) {
+	info := fi.Info()
+	ctxObjs := map[types.Object]bool{}
+	ast.Inspect(deferred.Call, func(m ast.Node) bool {
+		if id, ok := m.(*ast.Ident); ok {
+			if o, ok := info.Uses[id].(*types.Var); ok && typeIs(o.Type(), "context", "Context") && o.Pos() < deferred.Pos() {
+				ctxObjs[o] = true
+			}
+		}
+		return true
+	})
+	var bad ast.Node
+	var badName string
+	ast.Inspect(fi.Decl.Body, func(m ast.Node) bool {
+		as, ok := m.(*ast.AssignStmt)
+		if !ok || len(as.Rhs) != 1 {
+			return true
+		}
+		call, ok := ast.Unparen(as.Rhs[0]).(*ast.CallExpr)
+		if !ok {
+			return true
+		}
+		fn := calleeOf(info, call)
+		if fn == nil || fn.Pkg() == nil || fn.Pkg().Path() != "context" {
+			return true
+		}
+		switch fn.Name() {
+		case "WithTimeout", "WithDeadline", "WithTimeoutCause", "WithDeadlineCause":
+		default:
+			return true
+		}
+		if id, ok := as.Lhs[0].(*ast.Ident); ok && ctxObjs[info.ObjectOf(id)] && bad == nil {
+			bad, badName = as, id.Name
+		}
+		return true
+	})
+	pos := deferred.Pos()
+	if bad != nil {
+		pos = bad.Pos()
+	}
+	c.Check("R14i", fi.Name+"|restore context unbounded", pos, bad == nil, "%s bounds %s with a deadline and the deferred restore of the dev database runs with that same context: once the deadline has passed the restore fails and the database is handed back dirty", fi.Name, badName)
+}
+
+// R14j: deadline-bounded contexts do not flow into snapshot-taking calls.
+func checkBoundedCtxFlow(c *Ctx, rule string) {
+	c.AllFuncs(false, func(fi *FuncInfo) {
+		if !strings.HasPrefix(fi.Pkg.PkgPath, modRoot+"/cmd/atlas") {
+			return
+		}
+		info := fi.Info()
+		bounded := map[types.Object]ast.Node{}
+		ast.Inspect(fi.Decl.Body, func(m ast.Node) bool {
+			as, ok := m.(*ast.AssignStmt)
+			if !ok || len(as.Rhs) != 1 {
+				return true
+			}
+			call, ok := ast.Unparen(as.Rhs[0]).(*ast.CallExpr)
+			if !ok {
+				return true
+			}
+			fn := calleeOf(info, call)
+			if fn == nil || fn.Pkg() == nil || fn.Pkg().Path() != "context" {
+				return true
+			}
+			switch fn.Name() {
+			case "WithTimeout", "WithDeadline", "WithTimeoutCause", "WithDeadlineCause":
+				if id, ok := as.Lhs[0].(*ast.Ident); ok && info.ObjectOf(id) != nil {
+					bounded[info.ObjectOf(id)] = as
+				}
+			}
+			return true
+		})
+		for obj, def := range bounded {
+			c.funcs[fi.Name] = true
+			var bad *ast.CallExpr
+			ast.Inspect(fi.Decl.Body, func(m ast.Node) bool {
+				call, ok := m.(*ast.CallExpr)
+				if !ok || bad != nil || call.Pos() < def.End() {
+					return bad == nil
+				}
+				uses := false
+				for _, a := range call.Args {
+					if id, ok := ast.Unparen(a).(*ast.Ident); ok && info.ObjectOf(id) == obj {
+						uses = true
+					}
+				}
+				if !uses {
+					return true
+				}
+				if fn := calleeOf(info, call); fn != nil && c.mayReach(fn, func(g *types.Func) bool { return isSnapshotCall(g, nil) }, 6) {
+					bad = call
+				}
+				return true
+			})
+			pos, what := def.Pos(), ""
+			if bad != nil {
+				pos, what = bad.Pos(), c.nodeAt(bad)
+			}
+			c.Check(rule, fi.Name+"|bounded "+obj.Name()+" not handed to a snapshot-taking call", pos, bad == nil, "%s bounds %s with a deadline and hands it to %s, which can reach Snapshot: the deferred restore of the dev database runs with that context and fails once the deadline has passed, leaving the database dirty", fi.Name, obj.Name(), what)
+		}
+	})
+}
+
+// R18g: SpanDropped accumulates.
+func checkSpanAccumulates(c *Ctx, rule string) {
+	p := c.Pkg(pSqlcheck)
+	if p == nil {
+		return
+	}
+	dropped := p.Types.Scope().Lookup("SpanDropped")
+	if dropped == nil {
+		c.Unresolved(rule, "const sqlcheck.SpanDropped")
+		return
+	}
+	n := 0
+	c.AllFuncs(false, func(fi *FuncInfo) {
+		if fi.Pkg.PkgPath != pSqlcheck {
+			return
+		}
+		info := fi.Info()
+		mentions := func(e ast.Expr) bool {
+			hit := false
+			ast.Inspect(e, func(m ast.Node) bool {
+				if id, ok := m.(*ast.Ident); ok && info.Uses[id] == dropped {
+					hit = true
+				}
+				return !hit
+			})
+			return hit
+		}
+		ast.Inspect(fi.Decl.Body, func(m ast.Node) bool {
+			as, ok := m.(*ast.AssignStmt)
+			if !ok || len(as.Lhs) != 1 || len(as.Rhs) != 1 || !mentions(as.Rhs[0]) {
+				return true
+			}
+			if !typeIs(info.TypeOf(as.Lhs[0]), pSqlcheck, "ResourceSpan") {
+				return true
+			}
+			n++
+			c.funcs[fi.Name] = true
+			ok2 := as.Tok == token.OR_ASSIGN
+			if !ok2 && as.Tok == token.ASSIGN {
+				if be, ok := ast.Unparen(as.Rhs[0]).(*ast.BinaryExpr); ok && be.Op == token.OR {
+					l := types.ExprString(as.Lhs[0])
+					ok2 = types.ExprString(be.X) == l || types.ExprString(be.Y) == l
+				}
+			}
+			c.Check(rule, fi.Name+"|"+types.ExprString(as.Lhs[0])+" accumulates SpanDropped", as.Pos(), ok2, "%s overwrites %s with SpanDropped instead of OR-ing it onto the recorded span: an object the file itself added is no longer SpanTemporary, so dropping a scratch object created in the same file is reported as destructive", fi.Name, types.ExprString(as.Lhs[0]))
+			return true
+		})
+	})
+	if n < 3 {
+		c.Unresolved(rule, "writes of SpanDropped to a ResourceSpan in sql/sqlcheck (fewer than 3)")
+	}
+}
+
+// R18h: the realm handed to the next file derives from an inspection.
+func checkRealmThreading(c *Ctx, rule string) {
+	pp := modRoot + "/cmd/atlas/internal/migratelint"
+	isRealm := func(t types.Type) bool { return t != nil && typeIs(derefType(t), pSchema, "Realm") }
+	isInspect := func(g *types.Func) bool {
+		return g.Name() == "InspectRealm" || g.Name() == "InspectSchema"
+	}
+	var threaded []*FuncInfo
+	c.AllFuncs(false, func(fi *FuncInfo) {
+		if fi.Pkg.PkgPath != pp || recvName(fi.Decl) != "DevLoader" || fi.Decl.Type.Results == nil {
+			return
+		}
+		sig := fi.Obj.Type().(*types.Signature)
+		if sig.Results().Len() != 2 || !isRealm(sig.Results().At(0).Type()) {
+			return
+		}
+		// executes statements of a file?
+		if !c.mayReach(fi.Obj, func(g *types.Func) bool { return g.Name() == "ExecContext" }, 2) {
+			return
+		}
+		threaded = append(threaded, fi)
+	})
+	isThreaded := func(fn *types.Func) bool {
+		for _, t := range threaded {
+			if t.Obj == fn {
+				return true
+			}
+		}
+		return false
+	}
+	n := 0
+	for _, fi := range threaded {
+		info := fi.Info()
+		c.funcs[fi.Name] = true
+		// variable → derives from an inspection (flow-insensitive, through copies)
+		derives := map[types.Object]bool{}
+		fromInspect := func(e ast.Expr) bool {
+			call, ok := ast.Unparen(e).(*ast.CallExpr)
+			if !ok {
+				return false
+			}
+			fn := calleeOf(info, call)
+			return fn != nil && (isThreaded(fn) || c.mayReach(fn, isInspect, 2))
+		}
+		for changed := true; changed; {
+			changed = false
+			ast.Inspect(fi.Decl.Body, func(m ast.Node) bool {
+				as, ok := m.(*ast.AssignStmt)
+				if !ok {
+					return true
+				}
+				for i, l := range as.Lhs {
+					id, ok := l.(*ast.Ident)
+					if !ok || info.ObjectOf(id) == nil || derives[info.ObjectOf(id)] {
+						continue
+					}
+					var rhs ast.Expr
+					if len(as.Rhs) == len(as.Lhs) {
+						rhs = as.Rhs[i]
+					} else if i == 0 && len(as.Rhs) == 1 {
+						rhs = as.Rhs[0]
+					}
+					if rhs == nil {
+						continue
+					}
+					d := fromInspect(rhs)
+					if rid, ok := ast.Unparen(rhs).(*ast.Ident); ok && derives[info.ObjectOf(rid)] {
+						d = true
+					}
+					if d {
+						derives[info.ObjectOf(id)] = true
+						changed = true
+					}
+				}
+				return true
+			})
+		}
+		var named types.Object
+		if fld := fi.Decl.Type.Results.List[0]; len(fld.Names) > 0 {
+			named = info.ObjectOf(fld.Names[0])
+		}
+		ast.Inspect(fi.Decl.Body, func(m ast.Node) bool {
+			if _, ok := m.(*ast.FuncLit); ok {
+				return false
+			}
+			ret, ok := m.(*ast.ReturnStmt)
+			if !ok {
+				return true
+			}
+			var ok2 bool
+			var what string
+			switch {
+			case len(ret.Results) == 0:
+				ok2, what = named != nil && derives[named], "the named result"
+			case len(ret.Results) == 1:
+				ok2, what = fromInspect(ret.Results[0]), types.ExprString(ret.Results[0])
+			default:
+				r := ast.Unparen(ret.Results[0])
+				if isNilIdent(info, r) {
+					return true // failure return
+				}
+				what = types.ExprString(r)
+				if id, ok := r.(*ast.Ident); ok {
+					ok2 = derives[info.ObjectOf(id)]
+				}
+			}
+			n++
+			c.Check(rule, fi.Name+"|returns inspected realm ("+what+")", ret.Pos(), ok2, "%s returns %s as the state after the file, but no definition of it comes from an inspection of the dev database: the next file is diffed against a stale realm, its drops are invisible and everything else looks newly added (so later drops are classified temporary and suppressed)", fi.Name, what)
+			return true
+		})
+	}
+	if n < 3 {
+		c.Unresolved(rule, "success returns of state-threading DevLoader methods (fewer than 3)")
+	}
 }
